@@ -11,14 +11,21 @@ import numpy as np
 from ..common import rng
 
 TECHNIQUE = ("runtime reference-model monitor: union-find and scipy connected components vs properties.find_ND_labels / "
-             "pks_table.find_uniq (numba and scipy routes); exact-sum ledger for pk2dmerge / pk2d; numba thread-count and "
+             "pks_table.find_uniq (numba and scipy routes); exact-sum (longdouble) ledger for pk2dmerge / pk2d on labels of both "
+             "routes and after pks_table.save -> load, at several numba thread counts; numba thread-count and "
              "repetition differential with a sweep-count watchdog")
-LEVEL_TEXT = ("Exploration: graphs (chains in sorted and shuffled edge order, stars, cliques, grids, duplicate edges, self loops, no "
-              "edges, random sparse graphs) up to 1e4 nodes in quick and 1e6 in thorough, labelled at 1,2,3,4,8,16,32,64 numba threads "
+LEVEL_TEXT = ("Exploration: graphs (chains in sorted, reversed and shuffled edge order, many shuffled chains, stars, cliques, grids, "
+              "duplicate edges, self loops, no edges, random sparse graphs), every class at every size up to 1e4 nodes in quick and 1e6 in "
+              "thorough (a single shuffled chain up to 3e4: it needs n/5 sweeps; many shuffled chains of up to 3000 nodes go to 1e6), labelled at 1,2,3,4,8,16,32,64 numba threads "
               "with repetitions; labels must be exactly 0..n-1 and induce the connected-component partition every time; property "
-              "tables with random frames and scale factors are merged and compared with exact sums.")
+              "tables (edges in both directions, frames tied to their scan, 1-D and 2-D motor arrays, scale factors over six decades, "
+              "up to 1e5 peaks in a few large components) are merged at 1 and two other thread counts and compared with exact sums.")
 LEVEL_NOTE = ("numba prange code is not instrumentable: schedule_control = none (stress only); the sweep watchdog firing is "
-              "inconclusive, not a violation; graphs need at least one node.")
+              "inconclusive, not a violation; graphs need at least one node (find_ND_labels(i, j, 0) raises AssertionError: the "
+              "statement speaks of graphs between peaks); the code that builds the graph from overlaps (pks_table_from_scan) is "
+              "not part of the statement, which takes the graph as given; every thread count of the list must have run or the "
+              "verdict is inconclusive. A table without a single pair cannot be created (pks_table.create asks for 0 bytes of shared "
+              "memory, ValueError): such tables are skipped and counted unless VERIF_PENDING_C15_EDGELESS_TABLE is set.")
 
 RULE = ("a case = (graph class, nodes, edges, thread count); non-trivial = at least one component with >= 3 nodes and >= 2 "
         "components; distinct = (class, nodes, hash of edges, threads)")
@@ -69,6 +76,17 @@ def gen_graph(r, cls, n):
     elif cls == "chain-reversed":
         i = np.arange(n - 1)[::-1].copy()
         j = i + 1
+    elif cls == "shuffled-chains":
+        # many chains of L nodes, all their edges shuffled together and randomly oriented: about L/5 sweeps whatever n is
+        L = int(r.choice([30, 300, 3000])) if 10000 < n <= 100000 else int(r.choice([30, 300]))
+        i = np.arange(n - 1)
+        j = i + 1
+        keep = (j % L) != 0
+        i, j = i[keep], j[keep]
+        p = r.permutation(len(i))
+        i, j = i[p], j[p]
+        flip = r.random(len(i)) < 0.5
+        i, j = np.where(flip, j, i), np.where(flip, i, j)
     elif cls == "chains":
         # many chains of random length
         cut = r.random(n - 1) < 0.9
@@ -112,7 +130,7 @@ def gen_graph(r, cls, n):
 
 
 CLASSES = ["chain-sorted", "chain-shuffled", "chains", "star", "stars", "clique", "grid", "random-sparse", "no-edges",
-           "self-loops-dups", "chain-reversed", "random-sparse"]
+           "self-loops-dups", "chain-reversed", "shuffled-chains"]
 
 
 def canon(lab):
@@ -120,13 +138,16 @@ def canon(lab):
     return c(np.asarray(lab) + 1)
 
 
-def graph_case(run, seed, idx, mods, sizes, reps):
+def graph_case(run, seed, idx, mods, sizes, reps, cap=True):
     properties, numba = mods
     r = rng(seed, "C15", "g", idx)
     cls = CLASSES[idx % len(CLASSES)]
-    n = int(sizes[idx % len(sizes)])
-    if cls == "chain-shuffled":
-        n = min(n, 3000 if run.tier == "quick" else 100000)
+    # the k-th case of a class takes the (k + offset)-th size, the offset depending on (seed, class): class and size are
+    # not tied together, and len(sizes) cases of a class cover every size
+    off = int(rng(seed, "C15", "sizeoffset", cls).integers(1 << 30))
+    n = int(sizes[(idx // len(CLASSES) + off) % len(sizes)])
+    if cls == "chain-shuffled" and cap:
+        n = min(n, 600 if run.tier == "quick" else 30000)
     i, j = gen_graph(r, cls, n)
     nc, lab = ref_components(i, j, n)
     # second opinion for small graphs
@@ -141,11 +162,14 @@ def graph_case(run, seed, idx, mods, sizes, reps):
     sizes_c = np.bincount(lab)
     desc = dict(index=idx, kind="graph", cls=cls, nodes=n, edges=int(len(i)))
     first = True
+    run.count("graphs_%s" % cls)
+    run.setmax("max_nodes_%s" % cls, n)
     for nt in THREADS:
         if nt > numba.config.NUMBA_NUM_THREADS:
             run.count("thread_counts_unavailable")
             continue
         numba.set_num_threads(nt)
+        run.count("labelling_threads_%d" % nt)
         for rep in range(reps if nt > 1 else 1):
             sweeps = [0]
             orig = properties.numbalabelNd
@@ -166,6 +190,15 @@ def graph_case(run, seed, idx, mods, sizes, reps):
                 properties.numbalabelNd = orig
             run.count("labelling_runs")
             run.setmax("max_sweeps", sweeps[0])
+            if n >= 100000:
+                run.setmax("max_sweeps_graphs_ge_1e5_nodes", sweeps[0])
+            if nt == 1:
+                # long labellings get fewer repetitions (deterministic: decided by the 1-thread sweep count); every thread
+                # count still runs at least once
+                if sweeps[0] * max(len(i), 1) > 2e8 or sweeps[0] > (150 if run.tier == "quick" else 1000):
+                    reps = 1
+                elif sweeps[0] > 100:
+                    reps = min(reps, 2)
             u = np.unique(labels)
             bad = None
             if nl != nc:
@@ -185,20 +218,83 @@ def graph_case(run, seed, idx, mods, sizes, reps):
     numba.set_num_threads(min(4, numba.config.NUMBA_NUM_THREADS))
 
 
-def table_case(run, seed, idx, mods):
+def _merge_oracle(gl, nc, pk, omega, dty, scale):
+    """exact sums over the members of every merged peak: integers exactly, weighted sums in longdouble"""
+    LD = np.longdouble
+    N = pk.shape[1]
+    sc = np.ones(N, LD) if scale is None else np.asarray(scale).ravel()[pk[4]].astype(LD)
+    want = dict(Number_of_pixels=np.bincount(gl, weights=pk[0], minlength=nc), npk2d=np.bincount(gl, minlength=nc))
+    sI = np.zeros(nc, LD)
+    srI = np.zeros(nc, LD)
+    scI = np.zeros(nc, LD)
+    oI = np.zeros(nc, LD)
+    yI = np.zeros(nc, LD)
+    np.add.at(sI, gl, pk[1].astype(LD) * sc)
+    np.add.at(srI, gl, pk[2].astype(LD) * sc)
+    np.add.at(scI, gl, pk[3].astype(LD) * sc)
+    np.add.at(oI, gl, omega.ravel()[pk[4]].astype(LD) * pk[1].astype(LD) * sc)
+    np.add.at(yI, gl, dty.ravel()[pk[4]].astype(LD) * pk[1].astype(LD) * sc)
+    want.update(sum_intensity=sI, s_raw=srI / sI, f_raw=scI / sI, omega=oI / sI, dty=yI / sI)
+    return want, sc
+
+
+def _merge_tol(k, w, members, omax=180.0, ymax=50.0):
+    """Derived tolerance for the float64 accumulation in numbapkmerge against the longdouble ledger (u = 2**-53, m = members):
+    a term pks*scale carries one rounding, o*pks*scale two; a running sum of m terms adds at most (m-1) roundings, each
+    relative to a partial sum that is bounded by the sum of the absolute terms.  So
+      sums of one sign (pixels are exact integers; intensity, row*I, col*I: all terms >= 0):  |err| <= (m+1) u |sum|
+      ratios s_raw, f_raw = sum/sum:  (m+1)u + (m+1)u + u  = (2m+3) u relative
+      omega, dty (terms of both signs, |o| <= omax):  numerator error <= (m+2) u * omax * sum_intensity, denominator (m+1) u
+        relative, one division: absolute error of the mean <= (2m+4) u * omax
+    A factor 4 of slack covers second-order terms.  (The bound used before, 1e-11 relative + 1e-9 on omega, was three
+    orders of magnitude looser for the typical m < 50.)"""
+    u = 2.0 ** -53
+    m = members.astype(np.longdouble)
+    if k in ("Number_of_pixels", "npk2d"):
+        return np.zeros(len(m), np.longdouble)
+    if k == "sum_intensity":
+        return 4 * (m + 1) * u * np.abs(w)
+    if k in ("s_raw", "f_raw"):
+        return 4 * (2 * m + 3) * u * np.abs(w)
+    return 4 * (2 * m + 4) * u * (omax if k == "omega" else ymax)
+
+
+def table_case(run, seed, idx, mods, big=False):
     properties, numba = mods
-    r = rng(seed, "C15", "t", idx)
+    r = rng(seed, "C15", "t", idx, "big") if big else rng(seed, "C15", "t", idx)
     nscans = int(r.integers(1, 6))
     nframes = int(r.integers(2, 30))
-    npk = r.integers(1, 40, nscans)
+    if big:
+        # about 1e5 peaks that fall into a few large merged peaks plus many small ones
+        nscans, nframes = 40, 50
+        npk = r.integers(2000, 3000, nscans)
+        m_ii = r.integers(1500, 2500, nscans)
+        m_ij = r.integers(1500, 2500, nscans)
+    else:
+        npk = r.integers(1, 40, nscans)
+        # edges: within scan (ii) and to the next scan (ij)
+        m_ii = r.integers(0, 30, nscans)
+        m_ij = r.integers(0, 30, nscans)
     N = int(npk.sum())
-    # edges: within scan (ii) and to the next scan (ij)
-    m_ii = r.integers(0, 30, nscans)
-    m_ij = r.integers(0, 30, nscans)
     m_ij[-1] = 0
     npktab = np.array([npk, m_ii, m_ij]).T.astype(np.int64)
+    if int(m_ii.sum() + m_ij.sum()) == 0:
+        # a table without a single pair cannot be created at all: pks_table.create asks for a shared memory block of 0 bytes
+        # (ValueError).  Pending decision (hard rule 2): skipped unless VERIF_PENDING_C15_EDGELESS_TABLE is set.
+        run.count("tables_without_pairs_skipped")
+        if not os.environ.get("VERIF_PENDING_C15_EDGELESS_TABLE"):
+            return
+        try:
+            with contextlib.redirect_stdout(io.StringIO()):
+                tab = properties.pks_table(npk=npktab)
+        except Exception as e:
+            run.case(("table-edgeless", nscans, N), nontrivial=False)
+            run.violation("pks_table:no-pairs", "pks_table(npk) for %d peaks and no pairs raised %s: %s" % (N, type(e).__name__, e),
+                          dict(index=idx, kind="bigtable" if big else "table"))
+            return
     with contextlib.redirect_stdout(io.StringIO()):
         tab = properties.pks_table(npk=npktab)
+    r2 = rng(seed, "C15", "t2", idx, int(big))
     try:
         ipk = np.concatenate([[0], np.cumsum(npk)])
         pk = tab.pk_props
@@ -207,10 +303,18 @@ def table_case(run, seed, idx, mods):
         pk[2] = pk[1] * r.integers(0, 2000, N)
         pk[3] = pk[1] * r.integers(0, 2000, N)
         pk[4] = r.integers(0, nscans * nframes, N)
+        frames_by_scan = bool(r2.random() < 0.6)
+        if frames_by_scan:
+            # as the real table: a peak of scan s sits on one of the frames of scan s
+            for s_ in range(nscans):
+                pk[4, ipk[s_]:ipk[s_ + 1]] = s_ * nframes + np.sort(r2.integers(0, nframes, int(npk[s_])))
         ei, ej = [], []
         for s in range(nscans):
             a = r.integers(ipk[s], ipk[s + 1], m_ii[s])
             b = r.integers(ipk[s], ipk[s + 1], m_ii[s])
+            if big:
+                # within a scan: neighbours only (short chains), so that components stay of moderate size
+                b = np.minimum(a + 1, ipk[s + 1] - 1)
             ei += a.tolist()
             ej += b.tolist()
             if s + 1 < nscans:
@@ -218,6 +322,12 @@ def table_case(run, seed, idx, mods):
                 b = r.integers(ipk[s + 1], ipk[s + 2], m_ij[s])
                 ei += a.tolist()
                 ej += b.tolist()
+        ei = np.array(ei, np.int64)
+        ej = np.array(ej, np.int64)
+        # real tables list the pairs between rows high -> low (rc[0] > rc[1]); here each pair is given in a random direction
+        edir = ["low-high", "high-low", "mixed"][int(r2.integers(3))]
+        swap = {"low-high": np.zeros(len(ei), bool), "high-low": np.ones(len(ei), bool), "mixed": r2.random(len(ei)) < 0.5}[edir]
+        ei, ej = np.where(swap, ej, ei), np.where(swap, ei, ej)
         tab.rc[0] = ei
         tab.rc[1] = ej
         tab.rc[2] = r.integers(1, 9, len(ei))
@@ -225,9 +335,22 @@ def table_case(run, seed, idx, mods):
         dty = np.repeat(r.uniform(-50, 50, nscans)[:, None], nframes, axis=1)
         use_scale = bool(idx % 2)
         scale = r.uniform(0.5, 2.0, (nscans, nframes)) if use_scale else None
-        desc = dict(index=idx, kind="table", nscans=nscans, npeaks=N, nedges=len(ei), scale=use_scale)
-        nc, lab = ref_components(np.array(ei, int), np.array(ej, int), N)
-        run.case(("table", nscans, N, len(ei), use_scale), nontrivial=nc < N, sample=dict(desc, merged=int(nc)))
+        if use_scale and r2.random() < 0.5:
+            # monitor-normalisation factors over six decades, some exactly 1
+            scale = 10.0 ** r2.uniform(-3, 3, (nscans, nframes))
+            scale[r2.random((nscans, nframes)) < 0.2] = 1.0
+        flat = bool(r2.random() < 0.3)
+        if flat:
+            omega, dty = omega.ravel().copy(), dty.ravel().copy()
+            scale = None if scale is None else scale.ravel().copy()
+        desc = dict(index=idx, kind="bigtable" if big else "table", nscans=nscans, npeaks=N, nedges=len(ei), scale=use_scale,
+                    edges=edir, flat_motors=flat, frames_by_scan=frames_by_scan)
+        nc, lab = ref_components(ei, ej, N)
+        run.case(("table", nscans, N, len(ei), use_scale, big), nontrivial=nc < N, sample=dict(desc, merged=int(nc)))
+        run.count("tables_edges_" + edir)
+        if big:
+            run.count("big_tables")
+            run.setmax("big_table_largest_merged_peak", int(np.bincount(lab).max()))
 
         def V(key, what):
             run.violation(key, what, desc)
@@ -242,43 +365,84 @@ def table_case(run, seed, idx, mods):
             res[use_scipy] = np.asarray(gl).copy()
         if not np.array_equal(canon(res[False]), canon(res[True])):
             V("find_uniq:numba-vs-scipy", "numba and scipy routes give different partitions")
-        with contextlib.redirect_stdout(io.StringIO()):
-            tab.find_uniq(use_scipy=False)
-        gl = np.asarray(tab.glabel)
-        merged = tab.pk2dmerge(omega, dty, scale_factor=scale)
-        LD = np.longdouble
-        sc = np.ones(N, LD) if scale is None else scale.ravel()[pk[4]].astype(LD)
-        want = dict(
-            Number_of_pixels=np.bincount(gl, weights=pk[0], minlength=nc),
-            npk2d=np.bincount(gl, minlength=nc),
-        )
-        sI = np.zeros(nc, LD)
-        srI = np.zeros(nc, LD)
-        scI = np.zeros(nc, LD)
-        oI = np.zeros(nc, LD)
-        yI = np.zeros(nc, LD)
-        np.add.at(sI, gl, pk[1].astype(LD) * sc)
-        np.add.at(srI, gl, pk[2].astype(LD) * sc)
-        np.add.at(scI, gl, pk[3].astype(LD) * sc)
-        np.add.at(oI, gl, omega.ravel()[pk[4]].astype(LD) * pk[1].astype(LD) * sc)
-        np.add.at(yI, gl, dty.ravel()[pk[4]].astype(LD) * pk[1].astype(LD) * sc)
-        want.update(sum_intensity=sI, s_raw=srI / sI, f_raw=scI / sI, omega=oI / sI, dty=yI / sI)
-        run.count("merged_peaks_checked", int(nc))
-        for k, w in want.items():
-            g = np.asarray(merged[k], LD)
-            tol = 1e-11 * np.maximum(np.abs(w), 1) + (1e-9 if k == "omega" else 0)
-            if g.shape != w.shape or (np.abs(g - w) > tol).any():
-                V("pk2dmerge:" + k, "merged %s differs from the sum over members (max err %.3g)"
-                  % (k, float(np.abs(g - w).max()) if g.shape == w.shape else -1))
-        if not np.array_equal(merged["spot3d_id"], np.arange(nc)):
-            V("pk2dmerge:spot3d_id", "spot3d_id is not 0..n-1")
-        p2 = tab.pk2d(omega, dty, scale_factor=scale)
-        ok = (np.array_equal(p2["spot3d_id"], gl) and np.array_equal(p2["Number_of_pixels"], pk[0]) and
-              np.allclose(p2["s_raw"], pk[2] / pk[1], rtol=1e-14) and np.allclose(p2["f_raw"], pk[3] / pk[1], rtol=1e-14) and
-              np.array_equal(p2["omega"], omega.ravel()[pk[4]]) and np.array_equal(p2["dty"], dty.ravel()[pk[4]]) and
-              np.allclose(np.asarray(p2["sum_intensity"], float), (pk[1].astype(LD) * sc).astype(float), rtol=1e-14))
-        if not ok:
-            V("pk2d", "per-2D-peak table does not match the property arrays")
+        # merging on the labels of either route (the scipy route leaves int32 labels), at 1 thread and two other counts
+        avail = [t for t in THREADS if t <= numba.config.NUMBA_NUM_THREADS and t > 1]
+        tlist = [1] + [int(t) for t in r2.choice(avail, size=min(2, len(avail)), replace=False)] if avail else [1]
+        first_merged = None
+        for route in ("numba", "scipy"):
+            with contextlib.redirect_stdout(io.StringIO()):
+                tab.find_uniq(use_scipy=(route == "scipy"))
+            gl = np.asarray(tab.glabel)
+            want, sc = _merge_oracle(gl, nc, pk, omega, dty, scale)
+            members = want["npk2d"]
+            for nt in tlist:
+                numba.set_num_threads(nt)
+                merged = tab.pk2dmerge(omega, dty, scale_factor=scale)
+                run.count("pk2dmerge_runs")
+                run.count("pk2dmerge_threads_%d" % nt)
+                run.count("pk2dmerge_labels_%s_%s" % (route, gl.dtype.name))
+                run.count("merged_peaks_checked", int(nc))
+                for k, w in want.items():
+                    g = np.asarray(merged[k], np.longdouble)
+                    tol = _merge_tol(k, w, members, float(np.abs(omega).max()), float(np.abs(dty).max()))
+                    if g.shape != w.shape or not (np.abs(g - w) <= tol).all():
+                        V("pk2dmerge:" + k, "merged %s differs from the sum over members (max err %.3g; %s labels, %d threads)"
+                          % (k, float(np.abs(g - w).max()) if g.shape == w.shape else -1, route, nt))
+                if not np.array_equal(merged["spot3d_id"], np.arange(nc)):
+                    V("pk2dmerge:spot3d_id", "spot3d_id is not 0..n-1")
+                p2 = tab.pk2d(omega, dty, scale_factor=scale)
+                ok = (np.array_equal(p2["spot3d_id"], gl) and np.array_equal(p2["Number_of_pixels"], pk[0]) and
+                      np.allclose(p2["s_raw"], pk[2] / pk[1], rtol=1e-14, atol=0) and
+                      np.allclose(p2["f_raw"], pk[3] / pk[1], rtol=1e-14, atol=0) and
+                      np.array_equal(p2["omega"], omega.ravel()[pk[4]]) and np.array_equal(p2["dty"], dty.ravel()[pk[4]]) and
+                      np.allclose(np.asarray(p2["sum_intensity"], float), (pk[1].astype(np.longdouble) * sc).astype(float),
+                                  rtol=1e-14, atol=0))
+                if not ok:
+                    V("pk2d", "per-2D-peak table does not match the property arrays (%s labels, %d threads)" % (route, nt))
+                if route == "numba" and nt == 1:
+                    first_merged = merged
+        numba.set_num_threads(min(4, numba.config.NUMBA_NUM_THREADS))
+        # ---- the user's route: save the table, load it again, merge (labels of the numba route are current... scipy was last)
+        if idx % 3 == 0 or big:
+            from ..common import WORK
+            import tempfile, shutil, h5py
+            os.makedirs(os.path.join(WORK, "tmp"), exist_ok=True)
+            d = tempfile.mkdtemp(prefix="c15t_", dir=os.path.join(WORK, "tmp"))
+            try:
+                fn = os.path.join(d, "pks.h5")
+                with contextlib.redirect_stdout(io.StringIO()):
+                    tab.save(fn, rc=True)
+                    t2 = properties.pks_table.load(fn)
+                run.count("save_load_roundtrips")
+                gl2 = np.asarray(t2.glabel)
+                if int(t2.nlabel) != nc or not np.array_equal(gl2, np.asarray(tab.glabel)) or \
+                        not np.array_equal(t2.pk_props, pk) or not np.array_equal(t2.ipk, ipk):
+                    V("save-load:table", "pks_table.load(save()) does not give back labels / properties / pointers")
+                else:
+                    m2 = t2.pk2dmerge(omega, dty, scale_factor=scale)
+                    want, sc = _merge_oracle(gl2, nc, pk, omega, dty, scale)
+                    for k, w in want.items():
+                        g = np.asarray(m2[k], np.longdouble)
+                        if g.shape != w.shape or not (np.abs(g - w) <= _merge_tol(k, w, want["npk2d"], float(np.abs(omega).max()),
+                                                                                    float(np.abs(dty).max()))).all():
+                            V("save-load:pk2dmerge:" + k, "merged %s after save/load differs from the sum over members" % k)
+                with h5py.File(fn, "r") as h:
+                    rcs = h["pks2d/rc"][:]
+                if not np.array_equal(rcs, np.asarray(tab.rc)):
+                    V("save-load:rc", "saved pair list differs from the table's")
+                # find_uniq(outputfile=...) only writes the graph
+                fo = os.path.join(d, "graph.h5")
+                with contextlib.redirect_stdout(io.StringIO()):
+                    ans = tab.find_uniq(outputfile=fo)
+                with h5py.File(fo, "r") as h:
+                    gi, gj, gd = h["i"][:], h["j"][:], h["data"][:]
+                run.count("graph_file_writes")
+                if ans != (None, None) or not (np.array_equal(gi, ei) and np.array_equal(gj, ej) and
+                                               np.array_equal(gd, np.asarray(tab.rc[2]))):
+                    V("find_uniq:outputfile", "graph file written by find_uniq(outputfile=) is not the table's pair list")
+                del t2
+            finally:
+                shutil.rmtree(d, ignore_errors=True)
     finally:
         del tab
 
@@ -294,23 +458,27 @@ def check(run, replay=None):
         cs = replay["case"]
         if cs["kind"] == "graph":
             sz = [cs["nodes"]] * 12
-            graph_case(run, replay["seed"], cs["index"], mods, sz, 5)
+            graph_case(run, replay["seed"], cs["index"], mods, sz, 5, cap=False)
         else:
-            table_case(run, replay["seed"], cs["index"], mods)
+            table_case(run, replay["seed"], cs["index"], mods, big=(cs["kind"] == "bigtable"))
         run.nontrivial.update(["replay", "replay2"])
         return
     if run.tier == "quick":
         sizes = [1, 2, 5, 17, 100, 999, 4096, 10000]
-        for i in range(72):
-            graph_case(run, run.seed, i, mods, sizes, 3)
+        for i in range(96):
+            graph_case(run, run.seed, i, mods, sizes, 2)
         for i in range(60):
             table_case(run, run.seed, i, mods)
+        table_case(run, run.seed, 0, mods, big=True)
     else:
         sizes = [1, 2, 5, 17, 100, 999, 4096, 10000, 100000, 1000000]
-        for i in range(600):
-            graph_case(run, run.seed, i, mods, sizes, 10)
-        for i in range(3000):
+        # 12 classes x 10 sizes, twice; sized for about half an hour on an otherwise idle 16 core machine
+        for i in range(240):
+            graph_case(run, run.seed, i, mods, sizes, 4)
+        for i in range(1500):
             table_case(run, run.seed, i, mods)
+        for i in range(5):
+            table_case(run, run.seed, i, mods, big=True)
     try:
         run.extra["numba_threading_layer"] = numba.threading_layer()
     except Exception as e:
@@ -318,3 +486,17 @@ def check(run, replay=None):
     run.extra["thread_counts"] = [t for t in THREADS if t <= numba.config.NUMBA_NUM_THREADS]
     run.require_counter("labelling_runs", 500)
     run.require_counter("merged_peaks_checked", 200)
+    for nt in THREADS:
+        # a thread count that could not be set (NUMBA_NUM_THREADS too small) leaves the schedule quantifier unexplored
+        run.require_counter("labelling_threads_%d" % nt, 50)
+    for cls in set(CLASSES):
+        run.require_counter("graphs_%s" % cls, 5)
+        run.require_counter("max_nodes_%s" % cls, 600 if run.tier == "quick" else (30000 if cls == "chain-shuffled" else 1000000))
+    run.require_counter("pk2dmerge_threads_1", 50)
+    run.require_counter("pk2dmerge_labels_scipy_int32", 50)
+    run.require_counter("pk2dmerge_labels_numba_int64", 50)
+    for k in ("low-high", "high-low", "mixed"):
+        run.require_counter("tables_edges_" + k, 5)
+    run.require_counter("big_tables", 1)
+    run.require_counter("save_load_roundtrips", 10)
+    run.require_counter("graph_file_writes", 10)
